@@ -171,22 +171,23 @@ add('C08', 'proof', 'Lean 4 theorems: IsDistance with d = n_k_d[2] for ALL sizes
     'strips, and by running the verified search through the compiled driver on the REAL stabilizer / logical matrices (with a '
     'stabilizer-derived basis of N(S)/S, so a dropped generator is detected) plus an independent numpy search on larger sizes.',
     TB + 'Modelled rather than verified: n_k_d and the stabilizer/logical matrices of every family (tie shared with C07).')
-add('C10', 'proof', 'Lean 4 theorems: coset-probability specification (partition, ML optimality) AND, for four decoder networks (planar MPS, planar RMPS incl. its shared-contraction optimisation, rotated-planar MPS, colour 6.6.6 MPS), modelled network contraction = exact coset probability for all sizes; float-vs-exact comparison of the real decoders',
+add('C10', 'proof', 'Lean 4 theorems: coset-probability specification (partition, ML optimality) AND, for ALL five tensor-network decoder networks (planar MPS, planar RMPS incl. its shared-contraction optimisation, rotated-planar MPS, rotated-planar RMPS, colour 6.6.6 MPS incl. its shared ket), modelled network contraction = exact coset probability for all sizes; float-vs-exact comparison of the real decoders',
     'Spec side (any code satisfying CodeSpec, discharged for planar / rotated planar / colour / basic codes from C07 + normaliser '
     'completeness): the syndrome class is the disjoint union of the 4^k cosets, coset probabilities sum to Pr(syndrome), '
     'another sample permutes cosets, returning an arg-max coset is optimal among all functions of the syndrome. Network side: '
-    'the tensor networks built by PlanarMPSDecoder, PlanarRMPSDecoder, RotatedPlanarMPSDecoder and Color666MPSDecoder are '
+    'the tensor networks built by PlanarMPSDecoder, PlanarRMPSDecoder, RotatedPlanarMPSDecoder, RotatedPlanarRMPSDecoder and '
+    'Color666MPSDecoder are '
     'modelled tensor by tensor (shapes, None padding, node values, leg order); a generic factor-graph identity (delta '
     'stabilizer tensors + qubit tensors = sum over the stabilizer group; dimension-2 and dimension-4 legs) gives exactValue '
     '= cosetProb, and with C11 the modelled sweeps the decoders use (by column, by row, right-to-left, the colour decoder\'s '
     'bra/ket split, the RMPS shared partial contraction with its column bookkeeping) return exactly the coset probabilities, '
-    'for ALL sizes — 56 theorems. NOT proved: that the float / mpf arithmetic of the real contraction stays close to the exact '
+    'for ALL sizes — 71 theorems. NOT proved: that the float / mpf arithmetic of the real contraction stays close to the exact '
     'value (bounded per run: every coset probability within 1e-11 relative, arg-max class where the gap > 1e-9, incl. strong '
-    'noise and the zero / single-defect syndromes), and RotatedPlanarRMPSDecoder\'s network (not modelled). Tie: every tensor '
+    'noise and the zero / single-defect syndromes). Tie: every tensor '
     'of the real create_tn equals the model tensor exactly; recorded contraction bookkeeping; exact spec value from the real '
     'stabilizer matrices.',
-    TB + 'IEEE-754 / mpmath evaluation of the contractions is explored, not proved; RotatedPlanarRMPS network and all '
-    'truncating (chi / tol) contractions are outside the model.')
+    TB + 'IEEE-754 / mpmath evaluation of the contractions is explored, not proved; truncating (chi / tol) contractions are '
+    'outside the model.')
 add('C19', 'proof', 'Lean 4 theorems about a model of the CLI decision logic (spec scanner, literal-only arguments, validators, delegation, output protocol) + in-process and subprocess CLI-vs-API differential',
     'Proved about the model for all inputs: the name(args) scanner accepts exactly the regex language and recovers name and '
     'argument text; a non-literal / unparsable argument is a usage error and the constructor is never invoked; validators '
@@ -221,16 +222,17 @@ add('C02', 'proof', 'Lean 4 theorems: recovery reproduces the syndrome for EVERY
     '(max_iterations >= 1), toric MWPM, and — with graphs, clustering (_clusters never fails for perfect matchings: "Cluster is '
     'not a closed loop" characterised), cluster paths, corner fusing and the final XOR all inside the model — the rotated-planar '
     'and rotated-toric SMWPM decoders in ideal and FTP mode; the sample recoveries of the planar / rotated-planar / colour '
-    '6.6.6 tensor-network decoders and any product with logicals; the planar Y decoder (snake fills, destabilisers, residual '
-    'look-up table sound and total) for all R >= C with gcd(R,C) != 1 and every Y-only error (other shapes: kernel-evaluated '
-    'small sizes + exact tie); the naive decoder (sound, complete, guard); the monitor recoveryOk decides the property for all '
-    'errors with that syndrome at once. C15/C07 interface hypotheses are discharged (Props/C02/Instances.lean) — 59 theorems. '
+    '6.6.6 tensor-network decoders and any product with logicals; the planar Y decoder for ALL R, C >= 2 and every Y-only '
+    'error (snake fills, destabilisers incl. the co-prime billiard lemma, residual look-up table sound and total, '
+    'Y-stabilizers = the 2^(gcd-1) Y-only centraliser elements, decode never raises); for the SMWPM decoders also EXISTENCE of '
+    'perfect matchings at finite bias (so decoding never fails given a maximum-cardinality matching); the naive decoder (sound, complete, guard); the monitor recoveryOk decides the property for all '
+    'errors with that syndrome at once. C15/C07 interface hypotheses are discharged (Props/C02/Instances.lean) — 92 theorems. '
     'Tie: exact comparison of sample_recovery, recorded gt.mwpm graphs / matchings / clusters / stage recoveries / final '
     'recovery given the recorded matchings, the Y decoder\'s cached operators and residual table; and every registry decoder run '
     'on real syndromes (all syndromes of the smallest codes, every weight on larger ones, all parameterisations and context '
     'models) judged by the verified monitor in Python and in Lean. PlanarCMWPMDecoder(max_iterations=0) is a known finding.',
     TB + 'networkx matching is a parameter (any perfect matching); edge weights are not modelled (irrelevant to C02); '
-    'planar Y for R < C or co-prime sizes rests on the exact tie + monitor.')
+    'SMWPM matching existence at infinite bias (Y-only noise) is stated, not proved.')
 add('C03', 'proof', 'Lean 4 theorems: for every size, T, step errors and measurement flips, the modelled FTP decoders return a recovery with the syndrome of the total error for ANY perfect matchings; reachable-input characterisation; time-parity / result-constructor logic; exhaustive small-domain exploration of the real decoders',
     'Proved: ftp_rotated_planar_returns_to_codespace and ftp_rotated_toric_returns_to_codespace — for all sizes, all T >= 1, all '
     'step-error sequences and all periodic measurement-flip patterns, whatever perfect matchings gt.mwpm returns for the '
